@@ -16,7 +16,7 @@ extern _Bool g_backend_nonnull;   /* 1: call sites must prove the backend is nev
 
 /* well-formed address space: regions (when live) sit in the canonical user half, are at most 4 GiB
  * (32-bit guest pointers) and are disjoint */
-#define V_REGION_WF(k) (V_SIZE[k] == 0 || (V_BASE[k] >= 4096UL && V_SIZE[k] <= 0x100000000UL && V_BASE[k] + V_SIZE[k] <= 0x800000000000UL))
+#define V_REGION_WF(k) (V_SIZE[k] == 0 || (V_BASE[k] >= 4096UL && V_BASE[k] <= 0x7fff00000000UL && V_SIZE[k] <= 0x100000000UL))
 #define V_DISJOINT (V_SIZE[0] == 0 || V_SIZE[1] == 0 || V_BASE[0] + V_SIZE[0] <= V_BASE[1] || V_BASE[1] + V_SIZE[1] <= V_BASE[0])
 #define V_BACKEND_WF (V_REGION_WF(0) && V_REGION_WF(1) && V_DISJOINT)
 #endif
